@@ -285,9 +285,9 @@ int main(int argc, char** argv) {
   Result res; res.property = "C14"; res.harness = "h_graph"; res.mode = opt.mode; res.tier = opt.tier;
   GraphSys sys;
   int depth = 0;
-  if (opt.mode == "cgraph") { sys.n = static_cast<int>(opt.num("universe", 3)); depth = static_cast<int>(opt.num("depth", opt.thorough() ? 6 : 4)); }
+  if (opt.mode == "cgraph") { sys.n = static_cast<int>(opt.num("universe", 3)); depth = static_cast<int>(opt.num("depth", opt.thorough() ? 7 : 5)); }
   else if (opt.mode == "cgraph4") { sys.n = static_cast<int>(opt.num("universe", 4)); depth = static_cast<int>(opt.num("depth", 4)); }
-  else if (opt.mode == "updatable") { sys.updatable = true; sys.n = static_cast<int>(opt.num("universe", 3)); depth = static_cast<int>(opt.num("depth", opt.thorough() ? 5 : 4)); }
+  else if (opt.mode == "updatable") { sys.updatable = true; sys.n = static_cast<int>(opt.num("universe", 3)); depth = static_cast<int>(opt.num("depth", opt.thorough() ? 6 : 5)); }
   else { fprintf(stderr, "unknown mode\n"); return 2; }
   if (sys.n < 1 || sys.n > 6) { fprintf(stderr, "universe out of range\n"); return 2; }
 
